@@ -133,11 +133,11 @@ PROPS["C19"] = dict(
 )
 
 PROPS["C20"] = dict(
-    suites=["c20", "c20c", "c20w"],
+    suites=["c20", "c20c", "c20w", "c20x"],
     gen=[("c20", "ServlinVerif/Gen/C20Tables.lean")],
     lean_modules=["ServlinVerif.Props.C20", "ServlinVerif.Props.C05"],
     audit="Audit/C20.lean",
-    shards={"c20": 1, "c20w": 2},
+    shards={"c20": 1, "c20w": 2, "c20x": 1},
     rule="every status-named constructor found by scanning src/response.rs (executed; exhaustive); every HttpError variant (exhaustive, "
          "compile-time exhaustive match in the harness) x payload strings over arbitrary text incl. CR/LF, paths, non-ASCII (random). "
          "Non-trivial = status rows, and error cases carrying a payload.",
@@ -633,5 +633,34 @@ ADD4 = {
     "C20": dict(rule="c20w also: requests with Connection: keep-alive answered 5xx; truncated requests after which the client half-closes and keeps reading."),
 }
 for _pid, _d in ADD4.items():
+    for _k, _v in _d.items():
+        PROPS[_pid][_k] = (PROPS[_pid].get(_k, "") + " " + _v).strip()
+
+# Round-5 strengthening (appended like the texts above).
+ADD5 = {
+    "C01": dict(rule="(viii) every Cookie value of up to 5 (6) symbols over {a = ; \" SP}. Suite c01n: a server in a process that never started the safina timer thread; late, split and kept-alive requests must be served (oracle only)."),
+    "C03": dict(rule="c03b also in rst mode: the client resets the connection instead of closing it; a body of undeclared length then ends in an error, not in its end.",
+                explanation="Conn.inputErr models a stream that ends in an error (reset) instead of EOF: reading a body of undeclared length then fails with Truncated (C09_reset_is_not_eof)."),
+    "C04": dict(rule="Event-stream responses (behaviour E<n>: n messages produced 25 ms apart by another thread) inside request sequences, schedules single / frag / mid (the next request is sent while the stream is being produced); every schedule half-closes after its last byte. rst<N> also for uploads of undeclared length."),
+    "C05": dict(rule="rst mode: the scripted client leaves the interim response unread and closes; the next read of the connection fails with a reset."),
+    "C06": dict(rule="(3) custom content types (owned and static strings) over the 16 media types the library knows and one it does not, x 5 parameter suffixes: the string that was set is on the wire."),
+    "C07": dict(rule="Suite c04e: event streams inside request sequences on a real server, the client half-closing at once: every chunk and the terminating chunk arrive."),
+    "C09": dict(rule="Zero-padded declared lengths (width 3..40) at the S and M boundaries, followed by a second request.",
+                explanation="C09_reset_is_not_eof: a reset while a body of undeclared length is being read is reported as Truncated — nothing is accepted."),
+    "C10": dict(rule="An upload the handler answers at once (200/201/303) with the body only partly sent and the client stalling: no file may appear after the answer. One upload whose handler takes 11 s: the response is the handler's own and the file is gone once it is sent."),
+    "C11": dict(rule="Suite c04e: event streams on a real server with further requests arriving during the stream and the client half-closing: every event is delivered and the stream ends only when the sender is dropped."),
+    "C12": dict(rule="Kind w: an accepted upload aborted by a reset. Every fourth random history and 5 error-heavy histories run under a stalled logger."),
+    "C13": dict(rule="Suite c13p: handle_http_conn itself with 0..5 requests waiting and the permit revoked before the start, by the j-th handler, or never.",
+                explanation="Server.servedUnder is the whole loop of a connection task over cstep; C13_task_under_permit: revoked before the start it serves nothing, revoked by the j-th handler exactly min j k, never revoked all k."),
+    "C14": dict(rule="c14r: one head in four ends some field lines with a bare LF."),
+    "C15": dict(rule="c15s takes the Set-Cookie fields from the serialised response (write_http_response), not from the header list."),
+    "C16": dict(rule="c16a: durations with sub-second parts (1, 499999999, 500000000, 999999999 ns): a broken-down time names a whole second."),
+    "C17": dict(rule="(5) lines beyond 64 KiB and 128 KiB: one value of 34000 escapable characters at six alignments followed by further tags; 900 medium-sized tags."),
+    "C18": dict(rule="The first program of every phase runs on one thread that lives for the whole case (loggers come and go under it)."),
+    "C19": dict(rule="c19w: the directory also holds a sub-directory and a symlink named with the prefix; they are neither counted nor touched."),
+    "C20": dict(rule="Suite c20x: Response::from(std::io::Error) for 20 kinds x 3 texts, the library's own 'cannot read pending body' error, and log_response(Err(e)) for 5 ways of building the Error x 9 attached responses x 3 messages.",
+                explanation="HttpError.ofIoError / ofLogError model the two other conversions; C20_other_errors: 400 exactly for InvalidData, else 500; the response is the same for every error text and message."),
+}
+for _pid, _d in ADD5.items():
     for _k, _v in _d.items():
         PROPS[_pid][_k] = (PROPS[_pid].get(_k, "") + " " + _v).strip()
